@@ -381,6 +381,32 @@ pub fn enc_cmd(cmd: &Command, reply: &RespValue) -> Option<String> {
         Command::ExpireTime(k) => format!("EXPIRETIME {}", hk(k)),
         Command::PExpireTime(k) => format!("PEXPIRETIME {}", hk(k)),
         Command::Persist(k) => format!("PERSIST {}", hk(k)),
+        Command::LPush(k, vs) | Command::RPush(k, vs) => {
+            if vs.is_empty() {
+                return None;
+            }
+            let mut s = format!("{} {} {}", if matches!(cmd, Command::LPush(..)) { "LPUSH" } else { "RPUSH" }, hk(k), vs.len());
+            for v in vs {
+                s.push(' ');
+                s.push_str(&hv(v));
+            }
+            s
+        }
+        Command::LPop(k) => format!("LPOP {}", hk(k)),
+        Command::RPop(k) => format!("RPOP {}", hk(k)),
+        Command::LLen(k) => format!("LLEN {}", hk(k)),
+        Command::LIndex(k, i) => format!("LINDEX {} {}", hk(k), i),
+        Command::LRange(k, a, b) => format!("LRANGE {} {} {}", hk(k), a, b),
+        Command::LSet(k, i, v) => format!("LSET {} {} {}", hk(k), i, hv(v)),
+        Command::LTrim(k, a, b) => format!("LTRIM {} {} {}", hk(k), a, b),
+        Command::RPopLPush(a, b) => format!("RPOPLPUSH {} {}", hk(a), hk(b)),
+        Command::LMove { source, dest, wherefrom, whereto } => {
+            let ok = |x: &str| x == "LEFT" || x == "RIGHT";
+            if !ok(wherefrom) || !ok(whereto) {
+                return None;
+            }
+            format!("LMOVE {} {} {} {}", hk(source), hk(dest), wherefrom, whereto)
+        }
         _ => return None,
     })
 }
@@ -565,6 +591,28 @@ pub fn gen_expiry_cmd(rng: &mut Rng, now: u64) -> Command {
     }
 }
 
+pub fn gen_list_cmd(rng: &mut Rng) -> Command {
+    let k = key(rng);
+    match rng.below(24) {
+        0..=2 => Command::LPush(k, (0..rng.range(1, 3)).map(|_| payload(rng)).collect()),
+        3..=6 => Command::RPush(k, (0..rng.range(1, 3)).map(|_| payload(rng)).collect()),
+        7 | 8 => Command::LPop(k),
+        9 | 10 => Command::RPop(k),
+        11 => Command::LLen(k),
+        12 | 13 => Command::LIndex(k, index(rng)),
+        14..=16 => Command::LRange(k, index(rng), index(rng)),
+        17 | 18 => Command::LSet(k, index(rng), payload(rng)),
+        19 | 20 => Command::LTrim(k, index(rng), index(rng)),
+        21 => Command::RPopLPush(k, key(rng)),
+        _ => Command::LMove {
+            source: k,
+            dest: key(rng),
+            wherefrom: rng.pick(&["LEFT", "RIGHT"]).to_string(),
+            whereto: rng.pick(&["LEFT", "RIGHT"]).to_string(),
+        },
+    }
+}
+
 /// commands of families that are not modelled (yet): they only build states of other types
 pub fn gen_other_type_cmd(rng: &mut Rng) -> Command {
     let k = key(rng);
@@ -577,11 +625,12 @@ pub fn gen_other_type_cmd(rng: &mut Rng) -> Command {
 }
 
 pub fn gen_cmd(rng: &mut Rng, now: u64) -> Command {
-    match rng.below(20) {
-        0..=6 => gen_string_cmd(rng, now),
-        7..=8 => gen_counter_cmd(rng),
-        9..=12 => gen_key_cmd(rng),
-        13..=17 => gen_expiry_cmd(rng, now),
+    match rng.below(26) {
+        0..=5 => gen_string_cmd(rng, now),
+        6..=7 => gen_counter_cmd(rng),
+        8..=11 => gen_key_cmd(rng),
+        12..=16 => gen_expiry_cmd(rng, now),
+        17..=23 => gen_list_cmd(rng),
         _ => gen_other_type_cmd(rng),
     }
 }
